@@ -680,10 +680,11 @@ func (zp *ZoneParser) Next() (RR, bool) {
 				// err.lex may be nil in which case we substitute our current
 				// lex token.
 				if err.lex == (lex{}) {
-					return zp.setParseError(err.err, l)
+					err.lex = l
 				}
 
-				return zp.setParseError(err.err, err.lex)
+				zp.parseErr = &ParseError{file: zp.file, err: err.err, wrappedErr: err.wrappedErr, lex: err.lex}
+				return nil, false
 			}
 
 			// A syntax error the RDATA parser read past: the lexer hands it out
